@@ -61,6 +61,7 @@ type Contract struct {
 	Sets      []SetClause // ghost updates performed at return (assumed by callers, nothing to prove in the body)
 	NoPanic   bool
 	conformed bool
+	DomainTrigger bool // "domain trigger": the exit fact of a map range ("every key has been visited") is also triggered by lookups in the map's domain
 	OpaqueDiv bool // "opaque division": / and % by a non-constant integer divisor are uninterpreted in this function (facts about them come from lemmas only)
 }
 
@@ -554,6 +555,12 @@ func (sp *Specs) load(path string, prefixed bool, pkgPath string) error {
 		case "nohavoc":
 			if cur != nil {
 				cur.NoHavoc = true
+			}
+		case "domain":
+			if cur != nil && strings.TrimSpace(rest) == "trigger" {
+				cur.DomainTrigger = true
+			} else {
+				return fail(fmt.Errorf("expected: domain trigger"))
 			}
 		case "opaque":
 			if cur != nil && strings.TrimSpace(rest) == "division" {
